@@ -11,6 +11,7 @@ import io
 
 import numpy as np
 
+from .. import gen
 from ..models import sesame as MS
 from ..models.peaks import Oracle
 
@@ -164,9 +165,18 @@ def fam_verdicts(ctx, rng, coarse=False):
     info = dict(f0=meta["f0"], band=meta["band"], edge=meta["edge"], search_range=list(sr), lw=meta["lw"], nw=meta["nw"],
                 fn_std=meta["fn_std"], ratio=meta["ratio"])
     v = int(rng.integers(0, 3))
+    fa, ma, sa, lw_a, nw_a, fs_a = f, mean, std, meta["lw"], meta["nw"], meta["fn_std"]
+    if rng.random() < 0.3:
+        # the curves as a caller may hold them (strided / read-only / big-endian / Fortran-derived views of the same values),
+        # the counts and lengths as other numeric types holding the same value
+        fa, ma, sa = (gen.reform(rng, a, arrays_only=True)[0] for a in (f, mean, std))
+        nw_a = gen.scalar_form(rng, nw_a, allow=["int", "int64", "int32", "float", "float64"])[0]
+        lw_a = gen.scalar_form(rng, lw_a, allow=["float", "float64", "zero-dim-array"])[0]
+        fs_a = gen.scalar_form(rng, fs_a, allow=["float", "float64", "zero-dim-array"])[0]
+        ctx.count("calls_with_arguments_in_other_forms")
     try:
-        rel = quiet(sesame.reliability, meta["lw"], meta["nw"], f, mean, std, search_range_in_hz=sr, verbose=v)
-        cla = quiet(sesame.clarity, f, mean, std, meta["fn_std"], search_range_in_hz=sr, verbose=v)
+        rel = quiet(sesame.reliability, lw_a, nw_a, fa, ma, sa, search_range_in_hz=sr, verbose=v)
+        cla = quiet(sesame.clarity, fa, ma, sa, fs_a, search_range_in_hz=sr, verbose=v)
     except Exception as e:
         # out of the statement's domain when the range holds no peak that *must* be found (C08 oracle)
         if not Oracle(f, mean, sr).must:
@@ -197,12 +207,18 @@ def fam_verdicts(ctx, rng, coarse=False):
     err = None
     for vv in (0, 1, 2):
         try:
-            r = quiet(sesame.reliability, meta["lw"], meta["nw"], f, mean, std, search_range_in_hz=sr, verbose=vv)
-            c = quiet(sesame.clarity, f, mean, std, meta["fn_std"], search_range_in_hz=sr, verbose=vv)
+            # (the very objects of the first call are handed over again: a script asks for the verdicts, then for the report)
+            r = quiet(sesame.reliability, lw_a, nw_a, fa, ma, sa, search_range_in_hz=sr, verbose=vv)
+            c = quiet(sesame.clarity, fa, ma, sa, fs_a, search_range_in_hz=sr, verbose=vv)
             agree = agree and np.array_equal(r, rel) and np.array_equal(c, cla)
         except Exception as e:
             agree, err = False, f"verbose={vv}: {e!r}"
     ctx.check(agree, "verbosity-levels-agree", "verdicts depend on the verbosity level", error=err, **info)
+    same = (float(lw_a) == meta["lw"] and float(nw_a) == meta["nw"] and float(fs_a) == meta["fn_std"]
+            and np.array_equal(np.asarray(fa, float), f) and np.array_equal(np.asarray(ma, float), mean) and np.array_equal(np.asarray(sa, float), std))
+    ctx.check(same, "arguments-unchanged", "an argument object handed to reliability / clarity holds another value afterwards",
+              lw=[meta["lw"], float(lw_a)], nw=[meta["nw"], float(nw_a)], fn_std=[meta["fn_std"], float(fs_a)],
+              argument_types=[type(lw_a).__name__, type(nw_a).__name__, type(fs_a).__name__], **{k: v for k, v in info.items() if k not in ("lw", "nw", "fn_std")})
     tot = list(rel) + list(cla)
     if 0 < sum(tot) < 9:
         ctx.nontrivial([meta["band"], meta["edge"], meta["range_class"], [int(x) for x in tot], round(meta["ratio"], 3)])
